@@ -81,7 +81,7 @@ EvNext ==
           \/ /\ FlushRestore(T, i)
              /\ Ev([ev |-> "Flush", lock |-> 1, covers |-> <<[name |-> Guards(T)[i].f, lo |-> 1, hi |-> Guards(T)[i].size]>>])
           \/ /\ Unmap(T, i)
-             /\ IF UnmapOnDrop THEN Ev([ev |-> "Munmap", name |-> MName(Guards(T)[i].tid), foreign |-> FALSE, lock |-> 1])
+             /\ IF UnmapOnDrop THEN Ev([ev |-> "Munmap", name |-> MName(Guards(T)[i].tid), foreign |-> FALSE, ret |-> 0, lock |-> 1])
                 ELSE UNCHANGED hist
      \/ Q(GuardsDone(T))
      \/ /\ Verify(T)
